@@ -199,9 +199,9 @@ def r3(c):
     c.check("C10.R3", ok, repo.loc(lm, md), "merge_dicts/assigns-every-key", "merge_dicts may drop a key of one of its arguments", key_text="merge-dicts")
 
 
-def r4(c):
+def r4(c, rid="C10.R4"):
     repo = c.repo
-    c.rule("C10.R4", "_combine_acl_text tags every non-blank ACL line of every result with %generator_names=<that result's name>, and normalises (dedents) each generator's "
+    c.rule(rid, "_combine_acl_text tags every non-blank ACL line of every result with %generator_names=<that result's name>, and normalises (dedents) each generator's "
                      "ACL text on its own before concatenation (generators indent their ACL literals differently)")
     rm = repo.module(RESULT)
     fn = repo.func(RESULT, "_combine_acl_text")
@@ -220,15 +220,15 @@ def r4(c):
         f = gm.formula(t, G.GuardEnv())
         loops = gm.in_loop(t)
         ok = uses_name and len(loops) >= 2 and loops[0] is o and all(("line" in a) for a in G.atoms(f))
-    c.check("C10.R4", ok, repo.loc(rm, tag[0] if tag else fn), "_combine_acl_text/tag-every-line", "not every non-blank ACL line is tagged with the name of the result it came from", key_text="tag")
+    c.check(rid, ok, repo.loc(rm, tag[0] if tag else fn), "_combine_acl_text/tag-every-line", "not every non-blank ACL line is tagged with the name of the result it came from", key_text="tag")
     # dedent per generator: a dedent call inside the outer loop whose argument derives from acl_getter(gr)
     dd = [x for x in calls_in(fn) if call_name(x).endswith("dedent")]
     inside = [x for x in dd if any(y is x for y in ast.walk(o)) and any(isinstance(z, ast.Call) and norm(z.func) == "acl_getter" for z in ast.walk(x))]
-    c.check("C10.R4", bool(inside), repo.loc(rm, dd[0] if dd else fn), "_combine_acl_text/dedent-per-generator",
+    c.check(rid, bool(inside), repo.loc(rm, dd[0] if dd else fn), "_combine_acl_text/dedent-per-generator",
             "generators' ACL texts are not dedented one by one before being joined: with different base indentation one generator's top-level rules become children of "
             "another's last block, so the combined ACL covers lines no generator owns", key_text="dedent")
     skips = [n for n in walk_no_nested(o) if isinstance(n, (ast.Break, ast.Continue, ast.Return))]
-    c.check("C10.R4", not skips, repo.loc(rm, skips[0] if skips else o), "_combine_acl_text/no-skip", "some results or lines are skipped", key_text="skip")
+    c.check(rid, not skips, repo.loc(rm, skips[0] if skips else o), "_combine_acl_text/no-skip", "some results or lines are skipped", key_text="skip")
 
 
 def r5(c):
